@@ -7,13 +7,19 @@
 #include <compat/std/map>
 #include <compat/std/set>
 
+namespace
+{
+    template <class Cmp> void register_shims(const std::string &suffix)
+    {
+        std::string mn = "compat_std_map" + suffix, sn = "compat_std_set" + suffix;
+        mc::add_bfs(mn, [mn] { return std::unique_ptr<mc::Model>(new c02::MapModel<std::map<int, int, Cmp>, c02::NoStdMap, Cmp>(mn, mc::thorough() ? 3 : 2, 3, true)); });
+        mc::add_bfs(sn, [sn] { return std::unique_ptr<mc::Model>(new c02::SetModel<std::set<int, Cmp>, c02::NoStdSet, false, Cmp>(sn, mc::thorough() ? 4 : 3)); });
+    }
+}
 MC_INIT
 {
-    mc::add_bfs("compat_std_map", [] {
-        return std::unique_ptr<mc::Model>(new c02::MapModel<std::map<int, int>, c02::NoStdMap>("compat_std_map", mc::thorough() ? 3 : 2, 3, true));
-    });
-    mc::add_bfs("compat_std_set", [] {
-        return std::unique_ptr<mc::Model>(new c02::SetModel<std::set<int>, c02::NoStdSet, false>("compat_std_set", mc::thorough() ? 4 : 3));
-    });
+    register_shims<std::less<int>>("");
+    register_shims<std::greater<int>>("_greater");
+    register_shims<c02::HalfLess>("_half_less");
 }
 MC_MAIN
